@@ -687,6 +687,14 @@ def cfg_name(cfg):
 
 
 def run(rep):
+    try:
+        _run(rep)
+    finally:
+        common.close_pool()
+        H.sweep_scratch('c13')
+
+
+def _run(rep):
     global _PLANS
 
     H.install()
@@ -800,8 +808,6 @@ def run(rep):
 
     rep.part('violating_histories_by_signature', **bysig)
 
-    common.close_pool()
-    H.sweep_scratch('c13')
 
 
 def replay(rec) -> bool:
